@@ -110,6 +110,16 @@ pub fn type_j(t: &Type) -> J {
   json!({"alts": t.type_choices.iter().map(|tc| type1_j(&tc.type1)).collect::<Vec<_>>()})
 }
 
+fn occ_exact(o: &Option<Occurrence>) -> J {
+  // exact bounds as written (decimal strings: usize does not fit a JSON number / TLC integer)
+  match o {
+    Some(Occurrence { occur: Occur::Exact { lower, upper, .. }, .. }) => {
+      json!({"lo": lower.map(|x| x.to_string()), "hi": upper.map(|x| x.to_string())})
+    }
+    _ => J::Null,
+  }
+}
+
 fn occ_bounds(o: &Option<Occurrence>) -> (i64, i64, &'static str) {
   match o {
     None => (1, 1, ""),
@@ -118,8 +128,8 @@ fn occ_bounds(o: &Option<Occurrence>) -> (i64, i64, &'static str) {
       Occur::ZeroOrMore { .. } => (0, -1, "*"),
       Occur::OneOrMore { .. } => (1, -1, "+"),
       Occur::Exact { lower, upper, .. } => (
-        lower.map(|x| x as i64).unwrap_or(0),
-        upper.map(|x| x as i64).unwrap_or(-1),
+        lower.map(|x| x.min(i32::MAX as usize) as i64).unwrap_or(0),
+        upper.map(|x| x.min(i32::MAX as usize) as i64).unwrap_or(-1),
         "n*m",
       ),
     },
@@ -146,15 +156,15 @@ pub fn entry_j(e: &GroupEntry) -> J {
   match e {
     GroupEntry::ValueMemberKey { ge, .. } => {
       let (lo, hi, sp) = occ_bounds(&ge.occur);
-      json!({"k":"ent","lo":lo,"hi":hi,"osp":sp,"key":key_j(&ge.member_key),"t":type_j(&ge.entry_type)})
+      json!({"k":"ent","lo":lo,"hi":hi,"osp":sp,"oex":occ_exact(&ge.occur),"key":key_j(&ge.member_key),"t":type_j(&ge.entry_type)})
     }
     GroupEntry::TypeGroupname { ge, .. } => {
       let (lo, hi, sp) = occ_bounds(&ge.occur);
-      json!({"k":"name","lo":lo,"hi":hi,"osp":sp,"n":ident_name(&ge.name),"args":args_j(&ge.generic_args)})
+      json!({"k":"name","lo":lo,"hi":hi,"osp":sp,"oex":occ_exact(&ge.occur),"n":ident_name(&ge.name),"args":args_j(&ge.generic_args)})
     }
     GroupEntry::InlineGroup { occur, group, .. } => {
       let (lo, hi, sp) = occ_bounds(occur);
-      json!({"k":"sub","lo":lo,"hi":hi,"osp":sp,"g":group_j(group)})
+      json!({"k":"sub","lo":lo,"hi":hi,"osp":sp,"oex":occ_exact(occur),"g":group_j(group)})
     }
   }
 }
